@@ -266,6 +266,7 @@ impl WorldB {
                 }
                 // (5 = sealed for a foreign protocol id, clear-text protocol field rewritten to the server's by the token holder)
                 let variant = if op.c == 5 { 5 } else { op.c % 5 };
+                self.next_token_subset = op.d & 2 != 0;
                 let tid = if variant == 4 && self.slots[slot].epoch > 0 {
                     obs.count("probe.token_reused_for_new_client");
                     self.slots[slot].tid
@@ -284,6 +285,7 @@ impl WorldB {
                 if self.slots[slot].hostile {
                     self.tokens[tid].adv_owned = true;
                 }
+                self.next_token_subset = false;
                 self.new_client(slot, tid);
                 obs.count("op.new_client");
             }
